@@ -39,6 +39,9 @@ def file_checks():
     for extra in ("C05", "C01", "C03", "C13", "C10"):
         if extra not in m.setdefault("pycomm3/const.py", []):
             m["pycomm3/const.py"].append(extra)
+    # discover() / list_identity() live in cip_driver.py; the reply classification they feed is C13's (UDP replies ok / status / cut)
+    if "C13" not in m.setdefault("pycomm3/cip_driver.py", []):
+        m["pycomm3/cip_driver.py"].append("C13")
     return m
 
 
